@@ -263,6 +263,61 @@ def run(ctx):
                         meta.append((key, 'output', [res[0]['outs'][j] % p] * m))
                 finally:
                     sim.close()
+    # ---- tiny secure fields: with m >= q parties SecFld(q) is shared over a lifted field GF(q^e), which must have more
+    # than m elements (distinct nonzero evaluation points); consistency is checked with the field's own arithmetic
+    n_small = 0
+    for (m, t, q) in [(4, 1, 2), (3, 1, 2), (3, 1, 3), (5, 2, 2), (5, 2, 3), (5, 2, 5)] + (
+            [(8, 3, 2), (9, 4, 3), (7, 3, 7), (6, 2, 5)] if ctx.tier == 'thorough' else []):
+        sim = Sim(m, t, seed=rng.randrange(10**6))
+        try:
+            if not all(x is True for x in sim.start()):
+                ctx.violation('start-failed m=%d t=%d' % (m, t), {'m': m, 't': t})
+                continue
+            inputs = [rng.randrange(q) for _ in range(m)]
+
+            async def prog_small(mpc, mods, pid):
+                st = mpc.SecFld(q)
+                xs = mpc.input(st(inputs[pid]))
+                vals = list(xs)
+                vals.append(xs[0] * xs[1])
+                vals.append(xs[0] + xs[-1] * xs[1])
+                vals.append((xs[0] + 1) * (xs[1] + xs[-1]))
+                vals.append(vals[-1] * vals[-2])
+                sh = await mpc.gather(vals)
+                outs = await mpc.output(vals)
+                fld = st.field
+                return {'order': int(fld.order), 'shares': sh, 'outs': [int(o) for o in outs], 'field': fld}
+            res = sim.run(prog_small, Fifo(), idle_limit=2000, max_rounds=400000)
+            key = {'m': m, 't': t, 'secfld': q}
+            ctx.case(key, nontrivial=True, kind='tiny secure field m=%d q=%d' % (m, q))
+            if any(not isinstance(r, dict) for r in res):
+                ctx.violation('tiny-field-run-failed SecFld(%d) m=%d t=%d' % (q, m, t), {**key, 'inputs': inputs, 'result': str(res)[:300]})
+                continue
+            if res[0]['order'] <= m:
+                ctx.violation('sharing-field-not-larger-than-m SecFld(%d) m=%d t=%d' % (q, m, t), {**key, 'order': res[0]['order']})
+            x0, x1, xl = inputs[0], inputs[1], inputs[-1]
+            want = [v % q for v in inputs] + [x0 * x1 % q, (x0 + xl * x1) % q, (x0 + 1) * (x1 + xl) % q]
+            want.append(want[-1] * want[-2] % q)
+            th = sim.mods[0]['mpyc.thresha']
+            F = res[0]['field']
+            for j in range(len(want)):
+                n_small += 1
+                if any(res[i]['outs'][j] != want[j] for i in range(m)):
+                    ctx.violation('tiny-field-output-wrong SecFld(%d) m=%d t=%d' % (q, m, t),
+                                  {**key, 'inputs': inputs, 'value': j, 'got': [res[i]['outs'][j] for i in range(m)], 'want': want[j]})
+                pts = [(i + 1, [F(int(res[i]['shares'][j].value))]) for i in range(m)]   # via int: each party has its own class copies
+                base = pts[:t + 1]
+                try:
+                    bad = [x for (x, y) in pts[t + 1:] if th.recombine(F, base, x)[0] != y[0]]
+                    sec = th.recombine(F, base, 0)[0]
+                except ZeroDivisionError:
+                    bad, sec = ['evaluation points collide'], None
+                if bad or sec != F(want[j]):
+                    ctx.violation('tiny-field-shares-inconsistent SecFld(%d) m=%d t=%d' % (q, m, t),
+                                  {**key, 'inputs': inputs, 'value': j, 'off_polynomial_at': [str(b) for b in bad], 'secret': str(sec), 'want': want[j]})
+        finally:
+            sim.close()
+    ctx.extra['tiny_field_values_checked'] = n_small
     ctx.extra['values_interpolated'] = n_vals
     ctx.log('%d values interpolated; %d replay expressions' % (n_vals, len(exprs)))
     if ok and exprs:
